@@ -319,6 +319,19 @@ def cases(tier, shard, nshards):
                     "[len(b), c == b, len(c), base64_decode(base64_encode(b)) == b, hex_decode(hex_encode(b)) == b, utf8_encode(s) == bytes(b map (\\q -> 32 + q %% 90)), "
                     "json_decode(json_encode(s)) == s, len(s)]") % gen
             yield Case(prog, {"f": "long", "N": N, "kind": kind}, opts={"fuel": 50000000, "step_ms": 60000, "compact": True, "cap": 4})
+    # ---------- H: JSON round trip of strings, character by character: every code point below 0x300 (all C0 / C1 controls, DEL, quotes,
+    #             backslash) and the special ones beyond (combining marks, zero-width and line/paragraph separators, BOM, the last BMP
+    #             and the first / last astral scalar), alone, doubled and next to a letter; top level, in a list and as a dict key
+    cps = list(range(0, 0x300)) + [0x301, 0x200b, 0x200d, 0x2028, 0x2029, 0xd7ff, 0xe000, 0xfeff, 0xfffd, 0xffff, 0x10000, 0x1f600, 0x10ffff]
+    if tier == "quick":
+        cps = [c for c in cps if c < 0xa2 or c >= 0x2f0]
+    for cp in cps:
+        n += 1
+        if n % nshards != shard:
+            continue
+        for mk in ("chr(%d)" % cp, '("a" $ chr(%d) $ chr(%d))' % (cp, cp), '(chr(%d) $ chr(92) $ chr(34))' % cp):
+            yield Case("s := %s; [json_decode(json_encode(s)) == s, json_decode(json_encode([s, 1])) == [s, 1], json_decode(json_encode({s: s})) == {s: s}, "
+                       "len(json_decode(json_encode(s))) == len(s)]" % mk, {"f": "jstr", "cp": cp}, opts={"compact": True})
     # ---------- E: JSON-shaped values
     for (v, lit, txt) in json_values(tier):
         n += 1
@@ -393,6 +406,8 @@ def expect(m):
         if 0 <= cp < 0x110000 and not (0xd800 <= cp <= 0xdfff):
             return ("v", ["l", [["s", chr(cp)], cI(cp)]])
         return "raise"
+    if f == "jstr":
+        return ("v", ["l", [cI(1)] * 4])
     if f == "long":
         N = m["N"]
         return ("v", ["l", [cI(N), cI(1), cI(N), cI(1), cI(1), cI(1), cI(1), cI(N)]])
@@ -417,6 +432,9 @@ def sigof(m):
     if f == "chr":
         cp = int(m["cp"])
         return "C16 chr/ord range=%s" % ("surrogate" if 0xd800 <= cp <= 0xdfff else "beyond" if cp >= 0x110000 or cp < 0 else "bmp" if cp < 0x10000 else "astral")
+    if f == "jstr":
+        cp = m["cp"]
+        return "C16 json string round trip char=%s" % ("control" if cp < 32 or 0x7f <= cp < 0xa0 else "ascii" if cp < 0x80 else "latin" if cp < 0x300 else "special")
     if f == "long":
         return "C16 long input kind=%s size=%s" % (m["kind"], "<=8193" if m["N"] <= 8193 else "<=32769" if m["N"] <= 32769 else ">32769")
     if f == "json":
